@@ -436,6 +436,10 @@ func ExecSched(sc sim.Script) *sim.Outcome {
 		all = append(all, h...)
 	}
 	w.stats.Add("mut", int64(nmut))
+	if lossy && s.LossyWrites {
+		w.stats.Inc("probe.writers-next-to-lookups-into-absent-nodes")
+		return finishSched(w, res)
+	}
 	if lossy {
 		// readers ran into absent nodes: values must still never be wrong; the history of reads
 		// on a fixed content needs no linearizability search
